@@ -39,7 +39,9 @@ def cases(draw, tier):
     if draw(st.integers(0, 2)) == 0:
         c["unitaries"] = draw(gen.user_unitaries())
         alphabet = "".join(sorted(set("XYZ") | set(c["unitaries"].keys())))
-    c["unitary_key_order"] = draw(st.sampled_from([0, 0, 1, 2]))      # insertion order of the letters in the dictionary (see gen.lib_unitary_dict)
+    c["unitary_key_order"] = draw(st.sampled_from([0, 0, 1, 2]))
+    if c.get("unitaries") and draw(st.booleans()):
+        c["unitaries_load"] = {k: [draw(gen.ANGLE) for _ in range(4)] for k in c["unitaries"]}     # other matrices under the same letters (for the load history)      # insertion order of the letters in the dictionary (see gen.lib_unitary_dict)
     c["basis"] = draw(gen.basis_string(n, alphabet))
     D = 2 ** n
     if mode == "explicit_psi":
@@ -86,7 +88,47 @@ def check(c):
         # history on one operand tensor: rotate in the reference basis (optional), then basis 1, then basis 2 - each result must
         # still be the rotation of the ORIGINAL operand
         check_reuse(c)
+    if c["mode"] in ("complex", "density") and c.get("unitaries") and c.get("unitaries_load"):
+        check_after_load(c)
     return r
+
+
+def check_after_load(c):
+    """lifecycle: a model that has ALREADY been rotated (fast paths used once) loads a file written by a twin with the same parameters but
+    other matrices under the same letters; every rotation afterwards must use the loaded dictionary"""
+    import io
+    from qucumber.utils import unitaries as UN
+    n, basis, mode = c["n"], c["basis"], c["mode"]
+    sc = dict(c["state"], unitaries=c["unitaries"], unitary_key_order=c.get("unitary_key_order", 0))
+    st_ = gen.build_state(sc)
+    space = st_.generate_hilbert_space()
+    states = R.rows_from_indices(c["idx"], n)
+    (UN.rotate_psi_inner_prod if mode == "complex" else UN.rotate_rho_probs)(st_, basis, states.clone())     # first use, old dictionary
+    (UN.rotate_psi if mode == "complex" else UN.rotate_rho)(st_, basis, space)
+    sc2 = dict(sc, unitaries=c["unitaries_load"])
+    twin = gen.build_state(sc2)
+    buf = io.BytesIO()
+    twin.save(buf)
+    buf.seek(0)
+    st_.load(buf)
+    U2 = R.kron_U(gen.ref_unitary_dict(sc2), basis)
+    am, ph = gen.ref_nets(sc)
+    V = R.bits(n)
+    if mode == "complex":
+        ref = U2 @ R.psi_ref(am, ph, V)
+        tol = 1e-7 * float(ref.abs().max())
+        got_f = R.lib_to_c(UN.rotate_psi(st_, basis, space))
+        got_i = R.lib_to_c(UN.rotate_psi_inner_prod(st_, basis, states.clone()))
+        require(bool(torch.all((got_f - ref).abs() <= tol)) and bool(torch.all((got_i - ref[c["idx"]]).abs() <= tol)), "after-load:rotate_psi",
+                f"after load() of a file with other unitaries under the same letters, rotate_psi / rotate_psi_inner_prod do not use the loaded dictionary (basis {basis})")
+    else:
+        rho = R.rho_ref(am, ph, V)
+        ref = U2 @ rho @ U2.conj().t()
+        tol = 1e-6 * float(rho.abs().max())
+        got_f = R.lib_to_c(UN.rotate_rho(st_, basis, space))
+        got_p = UN.rotate_rho_probs(st_, basis, states.clone()).double()
+        require(bool(torch.all((got_f - ref).abs() <= tol)) and bool(torch.all((got_p - ref.diagonal().real[c["idx"]]).abs() <= tol)), "after-load:rotate_rho",
+                f"after load() of a file with other unitaries under the same letters, rotate_rho / rotate_rho_probs do not use the loaded dictionary (basis {basis})")
 
 
 def check_reuse(c):
